@@ -9,8 +9,7 @@ Semantics implemented (MusicXML 3.1, elements <attributes><divisions>, <note>, <
 <chord>, <grace>, <tie>):
   * a cursor per part, in quarters; <divisions> changes the unit for everything that follows;
   * a <note> starts at the cursor -- or, with <chord/>, at the onset of the previous note -- lasts
-    <duration>/divisions and then moves the cursor to its end (a chord member leaves the cursor where
-    the first chord note put it, or further if it is longer);
+    <duration>/divisions and then moves the cursor to its end; a chord member does not move the cursor;
   * <grace/> notes have no duration and do not move the cursor;
   * <backup>/<forward> move the cursor; a measure ends at the largest position reached in it and the
     next measure starts there;
@@ -82,9 +81,7 @@ def read_sounding(data):
                         raw.append((onset, len(raw), end, pitch, "stop" in ties, "start" in ties))
                     if not grace:
                         prev_onset = onset
-                        if chord:
-                            cursor = max(cursor, end)
-                        else:
+                        if not chord:
                             cursor = end
                         m_max = max(m_max, cursor)
             mext.append((m_start, m_max))
